@@ -17,6 +17,7 @@ import traceback
 from fractions import Fraction
 
 VERIF = os.path.dirname(os.path.dirname(os.path.abspath(__file__)))
+OUT = os.environ.get('PYVC_OUT', VERIF)      # evidence and replays are written here (the mutant self-test redirects it)
 REPO = os.environ.get('PYVC_REPO', '/repo')
 PY_REAL = os.environ.get('PYVC_PYTHON', '/venv/bin/python')
 
@@ -91,6 +92,64 @@ def model_inputs(ob):
     return out
 
 
+def crosscheck(I, c, r, max_paths):
+    """Witness cross-check against CPython (thorough tier); see pyvc/xcheck.py."""
+    import z3
+    from pyvc import replay, xcheck
+    out = {'paths': 0, 'agree': 0, 'disagree': [], 'na': 0, 'na_reasons': {}, 'pure_paths': 0, 'all_paths': 0}
+    finals = I.keep_finals or []
+    out['all_paths'] = len(finals)
+    pure = [f for f in finals if f['pure']]
+    out['pure_paths'] = len(pure)
+    pure.sort(key=lambda f: (f['case'], str(f['path'])))
+    if len(pure) > max_paths:
+        step = len(pure) / float(max_paths)
+        pure = [pure[int(i * step)] for i in range(max_paths)]
+
+    def na(why, n=1):
+        out['na'] += n
+        out['na_reasons'][why[:110]] = out['na_reasons'].get(why[:110], 0) + n
+    inputs_of = r.obligations[0].inputs if r.obligations else {}
+    for f in pure:
+        s = z3.Solver()
+        s.set('timeout', 10000)
+        for t in f['pc']:
+            s.add(t)
+        if s.check() != z3.sat:
+            na('no model of the path condition within 10 s')
+            continue
+        model = s.model()
+        fake = Obligation0(inputs_of, model)
+        inputs = model_inputs(fake)
+        if any(isinstance(v, str) and v.startswith('unrepresentable') for v in inputs.values()):
+            na('model value not representable')
+            continue
+        obd = {'case': f['case'], 'inputs': inputs, 'kind': 'xcheck', 'info': {'clause': None}, 'name': c.name}
+        try:
+            info = replay.native_replay(None, c, obd, REPO)
+        except Exception as e:
+            info = {'why': 'replay machinery failed: %r' % (e,)}
+        raw = info.get('raw')
+        if raw is None:
+            na(info.get('why') or 'no native run')
+            continue
+        out['paths'] += 1
+        verdict, detail = xcheck.compare_final(I, f, model, raw, info['names'])
+        if verdict == 'agree':
+            out['agree'] += 1
+        elif verdict == 'na':
+            na(detail)
+        else:
+            has_real = any(isinstance(v, dict) or isinstance(v, float) for v in inputs.values()) or 'real' in f['case']
+            out['disagree'].append({'case': f['case'], 'inputs': inputs, 'differences': detail, 'float_inputs': has_real})
+    return out
+
+
+class Obligation0:
+    def __init__(self, inputs, model):
+        self.model, self.inputs = model, inputs
+
+
 def run_one(args):
     idx, case_i, timeout_ms = args
     t0 = time.time()
@@ -99,6 +158,7 @@ def run_one(args):
         cs = load_contracts()
         c = cs[idx]
         I = make_interp(timeout_ms)
+        I.keep_finals = [] if XCHECK_PATHS > 0 and not c.modular else None
         r = spec.verify_contract(I, c, timeout_ms, only_case=case_i)
         obs = []
         for ob in r.obligations:
@@ -106,6 +166,12 @@ def run_one(args):
                         'case': getattr(ob, 'case', ''), 'info': _plain(ob.info), 'solver': ob.solver,
                         'path': ob.path, 'inputs': model_inputs(ob) if ob.status == 'refuted' else None,
                         'pc_size': len(ob.pc)})
+        xc = None
+        if XCHECK_PATHS > 0 and r.status == 'ok' and not c.modular:
+            try:
+                xc = crosscheck(I, c, r, XCHECK_PATHS)
+            except Exception:
+                xc = {'paths': 0, 'agree': 0, 'disagree': [], 'na': 1, 'pure_paths': 0, 'all_paths': 0, 'na_reasons': {'crosscheck crashed: ' + traceback.format_exc()[-300:]: 1}}
         src = {}
         for p, text in I.sources.items():
             src[os.path.relpath(p, REPO) if p.startswith(REPO) else p] = hashlib.sha256(text.encode()).hexdigest()
@@ -114,7 +180,7 @@ def run_one(args):
                 'obligations': obs, 'inlined': [list(x) for x in r.inlined], 'time': round(time.time() - t0, 3),
                 'assumptions': c.assumptions, 'sources': src, 'bounded': c.bounded_note,
                 'used_contracts': sorted(['%s:%s' % k for k in I.used_contracts]),
-                'covers': getattr(r, 'covers', None)}
+                'covers': getattr(r, 'covers', None), 'crosscheck': xc}
     except Exception:
         return {'idx': idx, 'status': 'error', 'message': traceback.format_exc(), 'obligations': [],
                 'name': '?', 'path': '?', 'serves': [], 'time': round(time.time() - t0, 3)}
@@ -150,6 +216,9 @@ def matches_known(pid, fnres, ob, known):
     return None
 
 
+XCHECK_PATHS = 0
+
+
 def main(argv=None):
     ap = argparse.ArgumentParser()
     ap.add_argument('property')
@@ -178,6 +247,8 @@ def main(argv=None):
         print('CHECKER-ERROR no contracts serve %s' % pid)
         return 3
     timeout_ms = 10000 if tier == 'quick' else 60000
+    global XCHECK_PATHS
+    XCHECK_PATHS = int(os.environ.get('PYVC_XCHECK', '3' if tier == 'thorough' else '0'))
     from pyvc import spec as _spec
     tasks = []
     for i in sel:
@@ -208,6 +279,16 @@ def main(argv=None):
             m_['time'] = round(m_['time'] + p_['time'], 3)
             m_['inlined'] = sorted({tuple(x) for x in m_['inlined']} | {tuple(x) for x in p_['inlined']})
             m_['sources'].update(p_.get('sources', {}))
+            if p_.get('crosscheck'):
+                a_, b_ = m_.get('crosscheck'), p_['crosscheck']
+                if not a_:
+                    m_['crosscheck'] = b_
+                else:
+                    for f_ in ('paths', 'agree', 'na', 'pure_paths', 'all_paths'):
+                        a_[f_] += b_[f_]
+                    a_['disagree'].extend(b_['disagree'])
+                    for k_, v_ in b_['na_reasons'].items():
+                        a_['na_reasons'][k_] = a_['na_reasons'].get(k_, 0) + v_
             if p_['status'] == 'undecided' and m_['status'] == 'ok':
                 m_['status'], m_['message'] = 'undecided', p_['message']
     results = [merged[k] for k in order]
@@ -268,6 +349,24 @@ def main(argv=None):
                     refuted.append((r, ob))
             else:
                 undecided.append({'obligation': ob['name'], 'case': ob['case'], 'reason': (ob['info'] or {}).get('reason')})
+    xc_tot = {'paths_explored': 0, 'pure_paths': 0, 'paths_replayed_natively': 0, 'final_states_agree': 0, 'without_native_rendering': 0,
+              'disagreements': [], 'contracts_with_an_agreeing_witness': 0, 'why_not_rendered': {},
+              'what': 'per sampled pure path: model of the path condition -> pyvc final state under the model vs final state of the '
+                      'real function under /venv/bin/python on the same input (see pyvc/xcheck.py); not counted as proof'}
+    for r in results:
+        x = r.get('crosscheck')
+        if not x:
+            continue
+        xc_tot['paths_replayed_natively'] += x['paths']
+        xc_tot['paths_explored'] += x['all_paths']
+        xc_tot['pure_paths'] += x['pure_paths']
+        xc_tot['final_states_agree'] += x['agree']
+        xc_tot['without_native_rendering'] += x['na']
+        xc_tot['contracts_with_an_agreeing_witness'] += 1 if x['agree'] else 0
+        for k_, v_ in x['na_reasons'].items():
+            xc_tot['why_not_rendered'][k_] = xc_tot['why_not_rendered'].get(k_, 0) + v_
+        for d_ in x['disagree']:
+            xc_tot['disagreements'].append(dict(d_, contract=r['name']))
     bounded = list(bounded_contracts.values())
     for e in extra:
         if e.get('status') == 'error':
@@ -285,7 +384,7 @@ def main(argv=None):
                     refuted.append(({'name': e['name'], 'path': e.get('path', ''), 'qualname': e['name'], 'bounded': True}, v))
     # replays
     violations = []
-    os.makedirs(os.path.join(VERIF, 'replays', pid), exist_ok=True)
+    os.makedirs(os.path.join(OUT, 'replays', pid), exist_ok=True)
     seen = set()
     for r, ob in refuted:
         key = ob['name']
@@ -336,6 +435,7 @@ def main(argv=None):
             'known_findings_hit': sorted(printed),
             'undecided': undecided,
             'bounded': [{k: v for k, v in b.items() if k != 'violations'} for b in bounded],
+            'cpython_witness_crosscheck': xc_tot if XCHECK_PATHS else 'not run in this tier',
             'explanation': 'obligations generated from the current /repo source text by pyvc (symbolic execution of the '
                            'real function bodies against sidecar contracts) and discharged by z3; bounded stand-ins are '
                            'listed separately and never counted in discharged',
@@ -345,11 +445,16 @@ def main(argv=None):
         'violations': len(violations),
     }
     if not a.only:
-        os.makedirs(os.path.join(VERIF, 'evidence'), exist_ok=True)
-        json.dump(ev, open(os.path.join(VERIF, 'evidence', pid + '.json'), 'w'), indent=1)
+        os.makedirs(os.path.join(OUT, 'evidence'), exist_ok=True)
+        json.dump(ev, open(os.path.join(OUT, 'evidence', pid + '.json'), 'w'), indent=1)
     nb = sum(b_.get('obligations', 0) for b_ in bounded)
     print('%s tier=%s contracts=%d obligations=%d discharged=%d bounded-obligations=%d refuted=%d known=%d undecided=%d wall=%.1fs exit=%d' % (
         pid, tier, len(sel), n_ob, n_dis, nb, len(violations), len(printed), len(undecided), wall, exit_code))
+    if XCHECK_PATHS:
+        print('%s cpython-witness-crosscheck: pure-paths=%d replayed=%d final-states-agree=%d no-native-rendering=%d disagreements=%d' % (
+            pid, xc_tot['pure_paths'], xc_tot['paths_replayed_natively'], xc_tot['final_states_agree'], xc_tot['without_native_rendering'], len(xc_tot['disagreements'])))
+        for d_ in xc_tot['disagreements']:
+            print('CROSSCHECK-DISAGREE %s' % json.dumps(d_, default=str)[:600])
     if a.verbose:
         for r in results:
             print('  %-60s %-9s cases=%s paths=%s obs=%d %.2fs %s' % (
